@@ -122,8 +122,37 @@ def textSpec (which : String) (args : List String) : Option String :=
   | "split", [t, s] => some (listField ((Spec.TextOps.split (parseCps t) (parseCps s)).map cpField))
   | _, _ => none
 
+/-! one text value over a history (`texthist`): every observable is a function of the text's CURRENT characters; the only
+operation that changes them is 转换数值 (`strExecAtoi` stores the rewritten text back into the receiver) -/
+
+def histModel (i j : Int) : List Char → List Nat → List String
+  | [], _ => []
+  | 'l' :: r, t => ("ok " ++ toString (Model.TextOps.length t)) :: histModel i j r t
+  | 'c' :: r, t => listField ((Model.TextOps.chars t).map pieceField) :: histModel i j r t
+  | 's' :: r, t => (match Model.TextOps.slice t (toIntQuarter i) (toIntQuarter j) with
+      | .ok x => textField x
+      | .error .panic => "panic"
+      | .error _ => "err sig 4") :: histModel i j r t
+  | 'v' :: r, t => textField t :: histModel i j r t
+  | 'n' :: r, t => "n" :: histModel i j r (Model.TextOps.atoiRewrite t)
+  | _ :: _, _ => ["bad-op"]
+
+def histSpec (i j : Int) : List Char → List Nat → List String
+  | [], _ => []
+  | 'l' :: r, t => ("ok " ++ toString t.length) :: histSpec i j r t
+  | 'c' :: r, t => listField (t.map fun c => cpField [c]) :: histSpec i j r t
+  | 's' :: r, t => (match Spec.TextOps.slice t (toIntQuarter i) (toIntQuarter j) with
+      | .ok x => "ok " ++ cpField x
+      | .error _ => "err sig 4") :: histSpec i j r t
+  | 'v' :: r, t => ("ok " ++ cpField t) :: histSpec i j r t
+  | 'n' :: r, t => "n" :: histSpec i j r (Spec.TextOps.numberRewrite t)
+  | _ :: _, _ => ["bad-op"]
+
 def handle (op : String) (args : List String) : Option String :=
   match op, args with
+  | "texthist", [t, i, j, w] =>
+    some (" | ".intercalate (histModel i.toInt! j.toInt! w.toList (Model.TextOps.encode (parseCps t))))
+  | "spec:texthist", [t, i, j, w] => some (" | ".intercalate (histSpec i.toInt! j.toInt! w.toList (parseCps t)))
   | "fmt", t :: rest => some (fmtModel (parseCps t) rest)
   | "spec:fmt", t :: rest => some (fmtSpec (parseCps t) rest)
   | "mod", [l, r] => some (modModel l r)
